@@ -19,7 +19,8 @@
 (*   denote   (where nothing can be executed: PostgreSQL) every planted name *)
 (*            still denotes the same object under PostgreSQL's folding rule  *)
 (* Domain WF: the parser accepts the statement.  exec is decided only where  *)
-(* both texts were run and (SQLite dialect, or SQLite executed the original).*)
+(* both texts were run, SQLite's own grammar accepts the original ("where    *)
+(* the dialect allows") and (SQLite dialect, or SQLite executed the original).*)
 EXTENDS SqlFormatDefs, Json
 
 VARIABLES i, bad, xbad, cnt, aux
@@ -32,7 +33,7 @@ WF(r) == r.parsed
 
 Reparse(r) == r.parsed2 /\ r.ast2 = r.ast1
 Idem(r)    == r.parsed2 => r.text3 = r.text2
-ExecDom(r) == r.x1.ran /\ r.x2.ran /\ (r.d = "sqlite" \/ r.x1.ok)
+ExecDom(r) == r.x1.ran /\ r.x2.ran /\ ~r.x1.syn /\ (r.d = "sqlite" \/ r.x1.ok)
 Exec(r)    == ExecDom(r) => (r.x1.ok = r.x2.ok /\ r.x1.rows = r.x2.rows /\ r.x1.state = r.x2.state)
 Occ(r)     == {j \in 1..Len(r.toks2) : r.toks2[j].k = "identifier" /\ Lower(r.toks2[j].t) = Lower(r.name)}
 DenoteDom(r) == r.fam = "ident" /\ r.d = "pg" /\ r.cls \notin KwClasses /\ r.parsed2
@@ -50,23 +51,34 @@ Fid(r) == LET m == Read(r.etoks) IN
           /\ m.ok = r.parsed
           /\ r.parsed => (r.e1 = Show(m.t) /\ r.e2txt = Text(Fmt(m.t)))
 
-(* abstract identity of a failing case.                                      *)
+(* abstract identity of a failing case (what) and the clauses that go into   *)
+(* its key (kcl).                                                            *)
 (*  statement families: the non-default options; when one of them fails the  *)
 (*    same clauses on its own, that option is the identity                   *)
-(*  identifiers: class@position, or class@* when the class fails the same    *)
-(*    clauses at every position it was planted in                            *)
+(*  identifiers: kind@route when every class of that kind fails at every     *)
+(*    position of that route, else class@route when the class fails at every *)
+(*    position of the route, else class@position; the key's clauses are then *)
+(*    the union over the aggregated cells                                    *)
 IsMatrix(r) == r.fam \notin {"expr", "ident"}
-What(r) ==
+Cell(x) == [d |-> x.d, cls |-> x.cls, pos |-> x.pos]
+Ident(r) ==
+  LET kr    == {x \in aux.identall : x.d = r.d /\ Kind(x.cls) = Kind(r.cls) /\ Route(x.pos) = Route(r.pos)}
+      krbad == {y \in aux.identbad : y.d = r.d /\ Kind(y.cls) = Kind(r.cls) /\ Route(y.pos) = Route(r.pos)}
+      cr    == {x \in kr : x.cls = r.cls}
+      crbad == {y \in krbad : y.cls = r.cls} IN
+  IF Cardinality(kr) > 1 /\ kr = {Cell(y) : y \in krbad}
+    THEN [what |-> {Kind(r.cls) \o "@" \o Route(r.pos)}, kcl |-> UNION {y.cl : y \in krbad}]
+  ELSE IF Cardinality(cr) > 1 /\ cr = {Cell(y) : y \in crbad}
+    THEN [what |-> {r.cls \o "@" \o Route(r.pos)}, kcl |-> UNION {y.cl : y \in crbad}]
+  ELSE [what |-> ToSet(r.what), kcl |-> Failed(r)]
+Id(r) ==
   LET cl == Failed(r)
       w  == ToSet(r.what) IN
-  IF r.fam = "ident" THEN
-    LET all == {x.pos : x \in {y \in aux.identall : y.d = r.d /\ y.cls = r.cls}}
-        bd  == {x.pos : x \in {y \in aux.identbad : y.d = r.d /\ y.cls = r.cls /\ y.cl = cl}} IN
-    IF all = bd /\ Cardinality(all) > 1 THEN {r.cls \o "@*"} ELSE w
+  IF r.fam = "ident" THEN Ident(r)
   ELSE IF IsMatrix(r) THEN
     LET cu == {f \in w : [fam |-> r.fam, d |-> r.d, f |-> f, cl |-> cl] \in aux.single} IN
-    IF cu # {} THEN cu ELSE w
-  ELSE w
+    [what |-> IF cu # {} THEN cu ELSE w, kcl |-> cl]
+  ELSE [what |-> w, kcl |-> cl]
 
 TInit == /\ i = 1 /\ bad = {} /\ xbad = {}
          /\ cnt = [rejected |-> 0, decided_exec |-> 0, decided_denote |-> 0, fid |-> 0]
@@ -80,7 +92,7 @@ TInit == /\ i = 1 /\ bad = {} /\ xbad = {}
 TNext == /\ i <= N
          /\ LET r == Log[i] IN
               /\ bad' = IF WF(r) /\ ~Post(r)
-                          THEN bad \cup {[idx |-> i, fam |-> r.fam, d |-> r.d, what |-> What(r), clauses |-> Failed(r)]}
+                          THEN bad \cup {[idx |-> i, fam |-> r.fam, d |-> r.d, what |-> Id(r).what, clauses |-> Id(r).kcl, own |-> Failed(r)]}
                           ELSE bad
               /\ xbad' = IF r.fam = "expr" /\ ~Fid(r) THEN xbad \cup {i} ELSE xbad
               /\ cnt' = [rejected |-> cnt.rejected + (IF WF(r) THEN 0 ELSE 1),
